@@ -777,7 +777,7 @@ func genC17Addr(g *h.G) {
 	}
 
 	// all 48 x 63 single-character substitutions (interleaved with the other cases: they are the expensive lines)
-	ns := g.Scale(300, 8000)
+	ns := g.Scale(300, 4000)
 	substDone := 0
 	emitSubst := func() {
 		if substDone >= ns {
